@@ -199,6 +199,9 @@ func (p *Program) prelude(native bool) string {
 	}
 	s := Prelude(p.Lang, native)
 	s += "(declare-const nilAny Any)\n(declare-fun f_acc (SSeq Int Int Int) Int)\n"
+	// zero values of arrays over uninterpreted sorts (cvc5 accepts only values in `as const`)
+	s += "(declare-const zeroStrArr (Array Int Str))\n(assert (forall ((i Int)) (! (= (select zeroStrArr i) lit_empty) :pattern ((select zeroStrArr i)))))\n"
+	s += "(declare-const zeroAnyArr (Array Int Any))\n(assert (forall ((i Int)) (! (= (select zeroAnyArr i) nilAny) :pattern ((select zeroAnyArr i)))))\n"
 	// declared names of the languages (ground, from go/types)
 	var b strings.Builder
 	b.WriteString("(declare-fun f_declNameU (Int) Str)\n")
